@@ -19,7 +19,7 @@ if TYPE_CHECKING:
     from jax2onnx.converter.ir_context import IRContext
 
 
-CacheKey = Union[str, int]
+CacheKey = Union[str, int, tuple[str, str]]
 OperandsTuple = tuple[DimExprLike | int, ...]
 TermWithMultiplier: TypeAlias = DimTermWithCoeff
 
@@ -121,8 +121,9 @@ class LowerDimExpr:
         return result_value
 
     def _lower_factor(self, factor: DimFactorWithPower) -> ir.Value:
-        if str(factor) in self.compute_cache:
-            return self.compute_cache[str(factor)]
+        factor_key = ("factor", str(factor))
+        if factor_key in self.compute_cache:
+            return self.compute_cache[factor_key]
 
         if factor[0].operation is None:
             var_name = factor[0].var
@@ -149,12 +150,13 @@ class LowerDimExpr:
             )
             self._set_metadata(result_value)
 
-        self.compute_cache[str(factor)] = result_value
+        self.compute_cache[factor_key] = result_value
         return result_value
 
     def _lower_term(self, term: DimTermLike) -> ir.Value:
-        if str(term) in self.compute_cache:
-            return self.compute_cache[str(term)]
+        term_key = ("term", str(term))
+        if term_key in self.compute_cache:
+            return self.compute_cache[term_key]
 
         if len(term._factors) == 0:
             result_value = self._get_scalar(1)
@@ -172,12 +174,15 @@ class LowerDimExpr:
                 )
                 self._set_metadata(result_value)
 
-        self.compute_cache[str(term)] = result_value
+        self.compute_cache[term_key] = result_value
         return result_value
 
     def _lower_term_with_mult(self, term: DimTermWithCoeff) -> ir.Value:
-        if str(term) in self.compute_cache:
-            return self.compute_cache[str(term)]
+        # A (term, coefficient) pair prints like a (variable, power) factor:
+        # "(B, 2)" is 2*B here and B**2 in _lower_factor. Keep the caches apart.
+        term_key = ("term_with_coeff", str(term))
+        if term_key in self.compute_cache:
+            return self.compute_cache[term_key]
 
         if term[0].is_constant and str(term[0]) == "":
             result_value = self._get_scalar(term[1])
@@ -195,15 +200,16 @@ class LowerDimExpr:
                 )
                 self._set_metadata(result_value)
 
-        self.compute_cache[str(term)] = result_value
+        self.compute_cache[term_key] = result_value
         return result_value
 
     def _lower_expr(self, expr: DimExprLike | int) -> ir.Value:
         if isinstance(expr, int):
             return self._get_scalar(expr)
 
-        if str(expr) in self.compute_cache:
-            return self.compute_cache[str(expr)]
+        expr_key = ("expr", str(expr))
+        if expr_key in self.compute_cache:
+            return self.compute_cache[expr_key]
 
         terms: tuple[TermWithMultiplier, ...] = expr._sorted_terms
         result_value = self._lower_term_with_mult(terms[0])
@@ -219,7 +225,7 @@ class LowerDimExpr:
             )
             self._set_metadata(result_value)
 
-        self.compute_cache[str(expr)] = result_value
+        self.compute_cache[expr_key] = result_value
         return result_value
 
     def __call__(self, exprs: list[DimExprLike | int | ir.Value]) -> ir.Value:
